@@ -429,7 +429,48 @@ func scribble(b []byte) {
 // dirt applied to a destination between decodes ("dirty" mode): the typed header maps are edited
 // without touching the retained raw bytes, payload and signature bytes are overwritten.  A decoder
 // whose result depends only on its input cannot see any of it.
+// dirtyValue edits a decoded header value in place: nested maps gain an entry, list elements and
+// byte strings are overwritten.  A decoder that shared any of these with a later result would show it.
+func dirtyValue(v any) {
+	switch t := v.(type) {
+	case map[any]any:
+		for _, x := range t {
+			dirtyValue(x)
+		}
+		t["dirt"] = int64(1)
+	case []any:
+		for i, x := range t {
+			dirtyValue(x)
+			if i == 0 {
+				t[0] = "dirt"
+			}
+		}
+	case []byte:
+		scribble(t)
+	case *cose.Countersignature:
+		if t != nil {
+			scribble(t.Signature)
+			for _, x := range t.Headers.Protected {
+				dirtyValue(x)
+			}
+			for _, x := range t.Headers.Unprotected {
+				dirtyValue(x)
+			}
+		}
+	case []*cose.Countersignature:
+		for _, c := range t {
+			dirtyValue(c)
+		}
+	}
+}
+
 func dirtyHeaders(h *cose.Headers) {
+	for _, x := range h.Protected {
+		dirtyValue(x)
+	}
+	for _, x := range h.Unprotected {
+		dirtyValue(x)
+	}
 	if h.Protected != nil {
 		delete(h.Protected, cose.HeaderLabelAlgorithm)
 		delete(h.Protected, cose.HeaderLabelKeyID)
@@ -498,9 +539,15 @@ func opHist(a []string) string {
 				dirtyHeaders(&d.sg.Headers)
 				scribble(d.sg.Signature)
 				if d.ph != nil {
+					for _, x := range d.ph {
+						dirtyValue(x)
+					}
 					d.ph[int64(99999)] = "dirt"
 				}
 				if d.uh != nil {
+					for _, x := range d.uh {
+						dirtyValue(x)
+					}
 					d.uh[int64(99999)] = "dirt"
 				}
 				pre = dump()
